@@ -283,6 +283,17 @@ where
         return Ok(output.into_dyn());
     }
 
+    // The im2col padding test compares element offsets against
+    // `(size - 1) * stride`. Along an axis with stride zero (a broadcast view)
+    // every offset is zero, so padding could not be told apart from image
+    // positions. Make such inputs contiguous first.
+    let contiguous_input = (has_padding && (input.stride(2) == 0 || input.stride(3) == 0))
+        .then(|| input.to_tensor_in(pool).auto_return(pool));
+    let input = contiguous_input
+        .as_ref()
+        .map(|input| input.view())
+        .unwrap_or(input);
+
     let n_patches = out_h * out_w;
     let mut output = NdTensor::uninit_in(pool, [batch, out_channels, n_patches]);
     let gemm = GemmExecutor::<W, X, Y>::default();
@@ -929,6 +940,32 @@ mod tests {
     }
 
     // Specific tests for convolutions with a 1x1 kernel.
+    #[test]
+    fn test_conv_broadcast_input_with_padding() -> Result<(), Box<dyn Error>> {
+        let mut rng = XorShiftRng::new(1234);
+        let kernel = Tensor::rand(&[2, 2, 2, 2], &mut rng);
+
+        // Inputs whose W or H axis is broadcast (stride 0).
+        let col = Tensor::rand(&[1, 2, 3, 1], &mut rng);
+        let row = Tensor::rand(&[1, 2, 1, 3], &mut rng);
+        for input in [&col, &row] {
+            let input = input.broadcast([1, 2, 3, 3].as_slice());
+            assert!(input.stride(2) == 0 || input.stride(3) == 0);
+            let result = check_conv(
+                input,
+                kernel.view(),
+                None,
+                [1, 1, 1, 1].into(),
+                1,       /* groups */
+                &[1, 1], /* stride */
+                &[1, 1], /* dilations */
+            )?;
+            assert_eq!(result.shape(), [1, 2, 4, 4]);
+        }
+
+        Ok(())
+    }
+
     #[test]
     fn test_conv_pointwise() -> Result<(), Box<dyn Error>> {
         let mut rng = XorShiftRng::new(1234);
